@@ -22,7 +22,7 @@ from contracts.common import lazy_sym, lazy_nat   # noqa: E402
 
 ITEMS = [
     _K10._mk_matcher_item(),
-    Item('printer.func', S.sym_printer, [], 'dataflows/processors/printer.py::printer.func'),
+    Item('printer.func', S.sym_printer, [('report', N.nat_printer_report)], 'dataflows/processors/printer.py::printer.func'),
     [i for i in K10.ITEMS if i.name == 'printer.step'][0],
     Item('finalizer', S.sym_finalizer, [], 'dataflows/processors/finalizer.py::finalizer.get_iterator.func'),
     Item('DataStreamProcessor.defaults', S.sym_dsp_base, [], 'dataflows/base/datastream_processor.py::DataStreamProcessor.process_resource'),
